@@ -769,6 +769,77 @@ def first_hour_missing():
     return sc
 
 
+def round_step(x: Fraction, step: Fraction) -> Fraction:
+    """round half up (away from zero) to a multiple of `step`"""
+    n = x / step
+    sg = -1 if n < 0 else 1
+    n = abs(n)
+    fl = n.numerator // n.denominator
+    if n - fl >= Fraction(1, 2):
+        fl += 1
+    return sg * fl * step
+
+
+def btc_settlement_steps(ctx, reqs):
+    """update() of a BTC market (min_fee_decimal -8, delivery fee 0.015 %): the payoff formula with the BTC literals
+    (`C16_payoff_formula_btc`), step-wise — oracle on the implementation's cash, and the model's answer for the same state."""
+    rng = ctx.rng
+    step = Fraction(1, 10 ** 8)
+    for _ in range(ctx.scale(24, 600)):
+        S = rng.choice((26000.0, 27000.5, 27350.25, 31000.0))
+        book, positions, want = [], [], Fraction(0)
+        n = rng.randint(1, 3)
+        for j in range(n):
+            kind = rng.choice(("CALL", "PUT"))
+            strike = rng.choice((25000, 26500, 27000, 27300, 27400, 28000, 33000))
+            amt = Decimal(rng.choice(("0.1", "0.3", "1.2", "2", "0.7")))
+            due = rng.random() < 0.8
+            expiry = rng.choice((60, 75, 120)) if due else 600
+            listed = rng.random() < 0.7
+            mark = rng.choice((0.0479, 0.0005, 0.00001234, 0.2))
+            name = f"BTC-{j}-{strike}-{kind[0]}"
+            if listed:
+                book.append({"name": name, "state": "open", "kind": kind, "strike": strike, "expiry": expiry, "mark": mark, "underlying": S,
+                             "delta": 0.5, "gamma": 0.001, "asks": [[0.06, 5]], "bids": [[0.04, 5]]})
+            positions.append({"name": name, "expiry": expiry, "strike": strike, "kind": kind, "amount": str(amt)})
+            if due:
+                Sq = Fraction(S) if listed else Fraction(Decimal("27100.5"))
+                mq = Fraction(mark) if listed else Fraction(0)
+                K, a = Fraction(strike), Fraction(amt)
+                itm = (kind == "CALL" and K < Sq) or (kind == "PUT" and K > Sq)
+                cls = "OTM"
+                if itm:
+                    gross = round_step(a * abs(Sq - K) / Sq, step)
+                    fee = round_step(min(DELIVERY_FEE * a, MAX_FEE * a * round_step(mq, step)), step)
+                    cls = "ITM" if gross > fee else "ITM-below-fee"
+                    if gross > fee:
+                        want += gross - fee
+                ctx.case(f"settle-step:BTC:{kind}:{cls}:{'row-present' if listed else 'row-absent'}")
+        if not book:
+            book.append({"name": "BTC-OTHER-99999-C", "state": "open", "kind": "CALL", "strike": 99999, "expiry": 10 ** 6, "mark": 0.001,
+                         "underlying": S, "delta": 0.1, "gamma": 0.001, "asks": [[0.0015, 10]], "bids": [[0.0005, 10]]})
+        rig = L.Rig(book, now=120, token="BTC", cash=Decimal(1), positions=positions, price=Decimal("27100.5"))
+        S1 = L.dump_state(rig)
+        n0 = len(rig.actions)
+        out, res = L.apply_op(rig, {"type": "update"})
+        S2 = L.dump_state(rig)
+        acts = [L.dump_action(a) for a in rig.actions[n0:]]
+        rep = {"btc_settlement": {"book": book, "positions": positions}}
+        n_due = sum(1 for p in positions if p["expiry"] <= 120)
+        if out != "ok":
+            ctx.violate(f"btc-update-crash.{out}", f"update() of a BTC market raised {out}", rep)
+        else:
+            dev = abs(S2["cash"] - S1["cash"] - want)
+            if dev > step * n_due:
+                ctx.violate("btc-payoff", f"BTC update(): cash {L.fmt(S1['cash'])} -> {L.fmt(S2['cash'])}, the property's formula (8 decimals, 0.015 %) gives +{L.fmt(want)}", rep)
+            elif dev != 0:
+                ctx.count("payoff_one_step_deviations")
+            left = [p["key"] for p in S2["positions"]]
+            if left != [p["name"] for p in positions if p["expiry"] > 120]:
+                ctx.violate("btc-settled-set", f"BTC update() at minute 120 left {left}", rep)
+        reqs.append(("btc-settlement", L.step_request(S1, {"type": "update"}, token="BTC"), out, res, S2, acts, rep))
+
+
 def zero_underlying_steps(ctx, reqs):
     """update() on a state whose due, in-the-money position is quoted with an underlying price of 0 (outside the data contract
     `underlying > 0` of ASSUMPTIONS): `_deliver_option` divides by it — decimal.DivisionByZero on a Decimal token price (row gone from the
@@ -842,6 +913,7 @@ def run(ctx: Ctx):
     zreqs = []
     if not ctx.search:
         zero_underlying_steps(ctx, zreqs)
+        btc_settlement_steps(ctx, zreqs)
     if ctx.driver_ok and zreqs:
         answers = L.model_answers([r[1] for r in zreqs])
         for (tag, req, out, res, S2, acts, rep), ans in zip(zreqs, answers):
@@ -871,8 +943,10 @@ def restore(sc):
 
 def replay(ctx: Ctx, case) -> bool:
     sub = Ctx(ctx.prop, ctx.tier, ctx.seed, False)
-    if "zero_underlying" in case:
-        zero_underlying_steps(sub, [])
+    if "zero_underlying" in case or "btc_settlement" in case:
+        (zero_underlying_steps if "zero_underlying" in case else btc_settlement_steps)(sub, [])
+        for v in sub.violations:
+            print("  ", v["key"], v["what"])
         return not sub.violations and not getattr(sub, "disagreements", [])
     run_one(sub, restore(case["scenario"]), [])
     for v in sub.violations:
